@@ -126,6 +126,12 @@ impl SerOpts {
 pub fn shrink_string(s: &str) -> Vec<String> {
     let chars: Vec<char> = s.chars().collect();
     let mut out = Vec::new();
+    if chars.len() > 96 {
+        // long text: drop one character at either end only (keeps lengths that matter, e.g. a limit, minimal)
+        out.push(chars[1..].iter().collect());
+        out.push(chars[..chars.len() - 1].iter().collect());
+        return out;
+    }
     for i in 0..chars.len() {
         let mut c = chars.clone();
         c.remove(i);
